@@ -141,10 +141,10 @@ theorem C12_fractions_in_unit_interval (trunc : ℝ → Nat) (lo nx : ℝ × ℝ
   exact max_lt hB (by norm_num)
 
 /-- the diameters of the discretised grading are STRICTLY INCREASING along the fractions: for every well-formed input (as above, with the given
-fractions below 0.999 and no given diameter exactly equal to the pseudo-liquid limit), every pipe and carrier and every requested count -/
+fractions below 0.999 and the last given diameter strictly above the pseudo-liquid limit), every pipe and carrier and every requested count -/
 theorem C12_diameters_strictly_increasing (trunc : ℝ → Nat) (lo nx : ℝ × ℝ) (rest : List (ℝ × ℝ)) (Dp nu rhol rhos : ℝ) (n : Nat) (B : ℝ) (hB : B < 0.999)
     (h : InputOK (framework.pseudo_dlim Dp nu rhol rhos) lo nx rest B)
-    (hne : ∀ p ∈ nx :: rest, p.2 ≠ framework.pseudo_dlim Dp nu rhol rhos) :
+    (hne : framework.pseudo_dlim Dp nu rhol rhos < ((nx :: rest).getLast (List.cons_ne_nil _ _)).2) :
     (createFracs (fun k : Nat => (k : ℝ)) trunc (lo :: nx :: rest) Dp nu rhol rhos n).gsd.Pairwise (fun p q => p.2 < q.2) := by
   have hstrict := C12_fractions_strictly_increasing (fun k : Nat => (k : ℝ)) trunc (lo :: nx :: rest) Dp nu rhol rhos n
   unfold createFracs at hstrict ⊢
@@ -158,7 +158,7 @@ at a positive fraction X (X computed on the first segment that remains after the
 grading and no node lies left of it -/
 theorem C12_starts_at_limit (trunc : ℝ → Nat) (lo nx : ℝ × ℝ) (rest : List (ℝ × ℝ)) (Dp nu rhol rhos : ℝ) (n : Nat) (B : ℝ) (hB : B < 0.999)
     (h : InputOK (framework.pseudo_dlim Dp nu rhol rhos) lo nx rest B)
-    (hne : ∀ p ∈ nx :: rest, p.2 ≠ framework.pseudo_dlim Dp nu rhol rhos) :
+    (hne : framework.pseudo_dlim Dp nu rhol rhos < ((nx :: rest).getLast (List.cons_ne_nil _ _)).2) :
     let dlim := framework.pseudo_dlim Dp nu rhol rhos
     let sk := skipBelow dlim (lo :: nx :: rest).length lo nx rest ((lo :: nx :: rest).length - 1)
     let X := sk.2.1.1 - (Transc.log10 sk.2.1.2 - Transc.log10 dlim) * (sk.2.1.1 - sk.1.1) / (Transc.log10 sk.2.1.2 - Transc.log10 sk.1.2)
@@ -184,7 +184,7 @@ theorem C12_starts_at_limit (trunc : ℝ → Nat) (lo nx : ℝ × ℝ) (rest : L
 node of the discretised grading -/
 theorem C12_given_points_are_nodes (trunc : ℝ → Nat) (lo nx : ℝ × ℝ) (rest : List (ℝ × ℝ)) (Dp nu rhol rhos : ℝ) (n : Nat) (B : ℝ) (hB : B < 0.999)
     (h : InputOK (framework.pseudo_dlim Dp nu rhol rhos) lo nx rest B)
-    (hne : ∀ p ∈ nx :: rest, p.2 ≠ framework.pseudo_dlim Dp nu rhol rhos) :
+    (hne : framework.pseudo_dlim Dp nu rhol rhos < ((nx :: rest).getLast (List.cons_ne_nil _ _)).2) :
     let dlim := framework.pseudo_dlim Dp nu rhol rhos
     let sk := skipBelow dlim (lo :: nx :: rest).length lo nx rest ((lo :: nx :: rest).length - 1)
     ∀ q ∈ sk.2.1 :: sk.2.2.1, q ∈ (createFracs (fun k : Nat => (k : ℝ)) trunc (lo :: nx :: rest) Dp nu rhol rhos n).gsd := by
@@ -197,7 +197,7 @@ theorem C12_given_points_are_nodes (trunc : ℝ → Nat) (lo nx : ℝ × ℝ) (r
 any length - the clause the rounding repair `647cf52` restored (with rounding to nearest an 8-point input gave 9) -/
 theorem C12_at_least_requested_fractions (trunc : ℝ → Nat) (lo nx : ℝ × ℝ) (rest : List (ℝ × ℝ)) (Dp nu rhol rhos : ℝ) (n : Nat) (hn : 3 ≤ n) (B : ℝ) (hB : B < 0.999)
     (h : InputOK (framework.pseudo_dlim Dp nu rhol rhos) lo nx rest B)
-    (hne : ∀ p ∈ nx :: rest, p.2 ≠ framework.pseudo_dlim Dp nu rhol rhos) :
+    (hne : framework.pseudo_dlim Dp nu rhol rhos < ((nx :: rest).getLast (List.cons_ne_nil _ _)).2) :
     n ≤ (createFracs (fun k : Nat => (k : ℝ)) trunc (lo :: nx :: rest) Dp nu rhol rhos n).gsd.length := by
   have hseg := skipBelow_strict (framework.pseudo_dlim Dp nu rhol rhos) B hB (lo :: nx :: rest).length lo nx rest ((lo :: nx :: rest).length - 1) h hne
     (by simp only [List.length_cons]; omega)
@@ -229,23 +229,18 @@ theorem slurry_input_ok (dlim d15 d50 d85 : ℝ) (h0 : 0 < d15) (h1 : d15 < d50)
     rcases hp with rfl | rfl <;> norm_num
   · simp only [List.getLast_cons_cons, List.getLast_singleton]; exact hl.le
 
-/-- C12 for the grading of a slurry object (D15 < D50 < D85 at fractions 0.15 / 0.5 / 0.85, D85 above the limit, D50 and D85 not exactly on it), in one
+/-- C12 for the grading of a slurry object (D15 < D50 < D85 at fractions 0.15 / 0.5 / 0.85, D85 above the limit), in one
 statement: at least ten nodes; fractions strictly increasing inside [0, 1); diameters strictly increasing and never below the limiting diameter; D85
 itself is a node -/
 theorem C12_slurry_grading (trunc : ℝ → Nat) (Dp nu rhol rhos d15 d50 d85 : ℝ) (h0 : 0 < d15) (h1 : d15 < d50) (h2 : d50 < d85)
-    (hl0 : 0 < framework.pseudo_dlim Dp nu rhol rhos) (hl : framework.pseudo_dlim Dp nu rhol rhos < d85)
-    (hne : d50 ≠ framework.pseudo_dlim Dp nu rhol rhos) :
+    (hl0 : 0 < framework.pseudo_dlim Dp nu rhol rhos) (hl : framework.pseudo_dlim Dp nu rhol rhos < d85) :
     let gsd := (createFracs (fun k : Nat => (k : ℝ)) trunc [(0.15, d15), (0.5, d50), (0.85, d85)] Dp nu rhol rhos 10).gsd
     10 ≤ gsd.length ∧ gsd.Pairwise (fun p q => p.1 < q.1) ∧ (∀ p ∈ gsd, 0 ≤ p.1 ∧ p.1 < 1) ∧ gsd.Pairwise (fun p q => p.2 < q.2) ∧
       (∀ p ∈ gsd, framework.pseudo_dlim Dp nu rhol rhos ≤ p.2) ∧ (0.85, d85) ∈ gsd := by
   intro gsd
   have hin := slurry_input_ok _ d15 d50 d85 h0 h1 h2 hl0 hl
-  have hne' : ∀ p ∈ [((0.5:ℝ), d50), (0.85, d85)], p.2 ≠ framework.pseudo_dlim Dp nu rhol rhos := by
-    intro p hp
-    simp only [List.mem_cons, List.not_mem_nil, or_false] at hp
-    rcases hp with rfl | rfl
-    · exact hne
-    · exact ne_of_gt hl
+  have hne' : framework.pseudo_dlim Dp nu rhol rhos < (([((0.5:ℝ), d50), (0.85, d85)] : List (ℝ × ℝ)).getLast (List.cons_ne_nil _ _)).2 := by
+    simp only [List.getLast_cons_cons, List.getLast_singleton]; exact hl
   have hB : (0.85:ℝ) < 0.999 := by norm_num
   refine ⟨C12_at_least_requested_fractions trunc _ _ _ Dp nu rhol rhos 10 (by norm_num) 0.85 hB hin hne',
     C12_fractions_strictly_increasing _ trunc _ Dp nu rhol rhos 10,
